@@ -1519,6 +1519,21 @@ copy_gvar_data(Relocation *cur, Node *expr, Type *ty, char *buf, int offset) {
   return cur;
 }
 
+// A bit-field shares its storage unit with its neighbours: the value,
+// cut to the width of the field, is merged into the bytes already there.
+static void write_gvar_bitfield(Initializer *init, Member *mem, char *buf, int offset) {
+  Node *expr = init->expr;
+  if (!expr)
+    return;
+
+  char *loc = buf + offset + mem->offset;
+  uint64_t oldval = read_buf(loc, mem->ty->size);
+  uint64_t newval = mem->ty->kind == TY_BOOL ? eval_truth(expr) : eval(expr);
+  uint64_t mask = mem->bit_width == 64 ? -1 : (1L << mem->bit_width) - 1;
+  uint64_t combined = oldval | ((newval & mask) << mem->bit_offset);
+  write_buf(loc, combined, mem->ty->size);
+}
+
 static Relocation *
 write_gvar_data(Relocation *cur, Initializer *init, Type *ty, char *buf, int offset) {
   if (ty->kind == TY_ARRAY) {
@@ -1534,16 +1549,7 @@ write_gvar_data(Relocation *cur, Initializer *init, Type *ty, char *buf, int off
   if (ty->kind == TY_STRUCT) {
     for (Member *mem = ty->members; mem; mem = mem->next) {
       if (mem->is_bitfield) {
-        Node *expr = init->children[mem->idx]->expr;
-        if (!expr)
-          continue;
-
-        char *loc = buf + offset + mem->offset;
-        uint64_t oldval = read_buf(loc, mem->ty->size);
-        uint64_t newval = mem->ty->kind == TY_BOOL ? eval_truth(expr) : eval(expr);
-        uint64_t mask = mem->bit_width == 64 ? -1 : (1L << mem->bit_width) - 1;
-        uint64_t combined = oldval | ((newval & mask) << mem->bit_offset);
-        write_buf(loc, combined, mem->ty->size);
+        write_gvar_bitfield(init->children[mem->idx], mem, buf, offset);
       } else {
         cur = write_gvar_data(cur, init->children[mem->idx], mem->ty, buf,
                               offset + mem->offset);
@@ -1557,6 +1563,10 @@ write_gvar_data(Relocation *cur, Initializer *init, Type *ty, char *buf, int off
       error_tok(init->expr->tok, "initializer element is not constant");
     if (!init->mem)
       return cur;
+    if (init->mem->is_bitfield) {
+      write_gvar_bitfield(init->children[init->mem->idx], init->mem, buf, offset);
+      return cur;
+    }
     return write_gvar_data(cur, init->children[init->mem->idx],
                            init->mem->ty, buf, offset);
   }
